@@ -487,6 +487,20 @@ def gen_C06(rng, tier, dist):
             ops.append("wv %s %s 0" % (f64bits(999.0), hx(delta_frame(rng, info["codec"]))))
             ops.append("wa %s %s" % (f64bits(999.0), hx(audio_frame(rng, "aac-lc"))))
             ops.append(rng.choice(fins[:2]))
+        # a finish that fails part-way (transient or permanent sink fault) followed by further attempts:
+        # "exactly once" must also hold when the first attempt did not succeed
+        r = rng.random()
+        if r < 0.3:
+            k = rng.choice([0, 1, 7, 8, 23, 24, 31, 32, 39, 40]) if rng.random() < 0.4 else rng.randrange(0, 1600)
+            pol = rng.choice(["failonce:%d:%d" % (k, rng.randrange(17)), "failonce:%d:%d" % (k, rng.randrange(17)),
+                              "failat:%d:%d" % (k, rng.randrange(17)), "zeroat:%d" % k,
+                              "cap:%d+failonce:%d:%d" % (rng.choice([1, 3, 100]), k, rng.randrange(17))])
+            cfg += " sink=" + pol
+            ops.append(rng.choice(fins[:2]))
+            ops.append(rng.choice(fins[:2]))
+            dist["c06_sink=" + pol.split(":")[0]] += 1
+        else:
+            dist["c06_sink=reliable"] += 1
         out.append(pcase(cfg, ops))
     return out
 
@@ -642,8 +656,12 @@ def frag_cfg(rng, dist):
 
 def frag_ops(rng, dist, maxlen=60, steps=None, start=None, reorder=None, queries=True):
     n = rng.randrange(1, maxlen)
-    dts = rng.choice([0, 0, 90000, 1234567]) if start is None else start
     step = rng.choice([3000, 3003, 1500, 1]) if steps is None else steps
+    dts = rng.choice([0, 0, 90000, 1234567]) if start is None else start
+    if start is None and rng.random() < 0.15:
+        # timelines that cross a power-of-two boundary of the DTS within a few samples
+        dts = max(0, (1 << rng.choice([31, 32, 32, 32, 33, 40])) * rng.choice([1, 1, 2, 3]) - rng.randrange(0, 6) * step - rng.randrange(0, 2))
+        dist["frag_start=near_pow2"] += 1
     vfr = rng.random() < 0.3 and steps is None
     reorder = (rng.random() < 0.3) if reorder is None else reorder
     ops = []
@@ -714,6 +732,9 @@ def gen_C11(rng, tier, dist):
         if k < 0.4:   # constant interval, >= 2 samples per segment
             step = rng.choice([3000, 3003, 1, 1500])
             start = rng.choice([0, 0, 90000, 7])
+            if rng.random() < 0.2:
+                start = max(0, (1 << rng.choice([31, 32, 32, 33])) * rng.choice([1, 1, 2]) - rng.randrange(0, 8) * step - rng.randrange(0, 2))
+                dist["c11_start=near_pow2"] += 1
             ops = []
             dts = start
             nseg = rng.randrange(1, 6)
